@@ -30,9 +30,7 @@ package rule
 //@ ensures[C13] err == nil ==> len(wf) >= 1040 && le32(wf, 8) <= 64 && le32(wf, 1036) + 1040 <= len(wf)
 //@ loop 0 invariant forall k field :: k in existingFields ==> 0 <= existingFields[k] && existingFields[k] < len(r.fields)
 //
-// Decoding: the running string offset never passes the declared buffer length.
-//@ func (*rule.ruleData).fromAuditRuleData
-//@ loop 3 invariant offset <= in.BufLen
+// (the decoder's contract, including the offset invariant needed here, is in the C07 section below)
 
 // ---------------------------------------------------------------------------
 // C06 / C20: tables, constants and layouts against the UAPI oracle
@@ -193,3 +191,45 @@ package rule
 //@ ensures[C06] rdOK(data)
 //@ ensures[C06] isNil(result0) ==> data.flags == exitFilter && data.action == alwaysAction && data.allSyscalls
 //@ ensures[C06] isNil(result0) ==> len(data.fields) == old(len(data.fields)) + 2 + (if len(rule.Keys) > 0 then 1 else 0)
+
+// ---------------------------------------------------------------------------
+// C07: decoding is the inverse of the encoding, layer by layer. (The text layer
+// ToCommandLine -> flags.Parse -> Build is formatting through fmt/strconv/flag
+// and is covered by a bounded stand-in only.)
+//
+// fromWireFormat reads exactly the layout toWireFormat writes.
+//@ func rule.fromWireFormat
+//@ modifies alloc
+//@ ensures[C07] len(data) < 1040 ==> !isNil(result1)
+//@ ensures[C07] isNil(result1) ==> result0 != nil && len(data) >= 1040 && le32(data, 1036) + 1040 <= len(data)
+//@ ensures[C07] isNil(result1) ==> result0.Flags == le32(data, 0) && result0.Action == le32(data, 4) && result0.FieldCount == le32(data, 8) && result0.BufLen == le32(data, 1036)
+//@ ensures[C07] isNil(result1) ==> forall i int :: 0 <= i && i < 64 ==> result0.Mask[i] == le32(data, 12 + 4*i)
+//@ ensures[C07] isNil(result1) ==> forall i int :: 0 <= i && i < 64 ==> result0.Fields[i] == le32(data, 268 + 4*i)
+//@ ensures[C07] isNil(result1) ==> forall i int :: 0 <= i && i < 64 ==> result0.Values[i] == le32(data, 524 + 4*i)
+//@ ensures[C07] isNil(result1) ==> forall i int :: 0 <= i && i < 64 ==> result0.FieldFlags[i] == le32(data, 780 + 4*i)
+//@ ensures[C07] isNil(result1) ==> len(result0.Buf) == le32(data, 1036) && (forall j int :: 0 <= j && j < len(result0.Buf) ==> result0.Buf[j] == data[1040 + j])
+//
+// list and action names are the inverse of setList / setAction on the codes
+// those accept.
+//@ func (*rule.ruleData).getList
+//@ pure
+//@ ensures[C07] isNil(result1) ==> listOK(result0, r.flags)
+//@ ensures[C07] r.flags == exitFilter || r.flags == taskFilter || r.flags == userFilter || r.flags == excludeFilter ==> isNil(result1)
+//@ func (*rule.ruleData).getAction
+//@ pure
+//@ ensures[C07] isNil(result1) ==> actionOK(result0, r.action)
+//@ ensures[C07] r.action == alwaysAction || r.action == neverAction ==> isNil(result1)
+//
+// fromAuditRuleData copies list, action and the triples back, recognises the
+// all-syscalls pattern exactly, and never reads a string past the buffer.
+//@ func (*rule.ruleData).fromAuditRuleData
+//@ requires r != nil && in != nil && in.BufLen <= len(in.Buf)
+//@ modifies r.*, alloc
+//@ ensures[C07] isNil(result0) ==> in.FieldCount <= 64 && r.flags == in.Flags && r.action == in.Action
+//@ ensures[C07] isNil(result0) ==> len(r.fields) == in.FieldCount && len(r.values) == in.FieldCount && len(r.fieldFlags) == in.FieldCount
+//@ ensures[C07] isNil(result0) ==> forall i int :: 0 <= i && i < in.FieldCount ==> r.fields[i] == in.Fields[i] && r.values[i] == in.Values[i] && r.fieldFlags[i] == in.FieldFlags[i]
+//@ ensures[C07] isNil(result0) ==> (r.allSyscalls <==> (forall w int :: 0 <= w && w < 63 ==> in.Mask[w] == 4294967295))
+//@ loop 0 invariant 0 <= i && i <= 63 && (r.allSyscalls <==> (forall w int :: 0 <= w && w < i ==> in.Mask[w] == 4294967295))
+//@ loop 3 invariant offset <= in.BufLen
+//@ loop 3 invariant i <= in.FieldCount && len(r.fields) == in.FieldCount && len(r.values) == in.FieldCount && len(r.fieldFlags) == in.FieldCount
+//@ loop 3 invariant forall k int :: 0 <= k && k < i ==> r.fields[k] == in.Fields[k] && r.values[k] == in.Values[k] && r.fieldFlags[k] == in.FieldFlags[k]
